@@ -222,7 +222,7 @@ Proof.
   - rewrite Forall_forall in *. intros o Ho.
     destruct (Hst o Ho) as [[Hv (p & Hp & Hc & Hg & Hff)]|Hnone]; [left|now right].
     split.
-    + intros (e' & [<-|Hin] & Hi); [apply He in Hi; tauto|apply Hv; exists e'; auto].
+    + intros (e' & [<-|Hin] & Hi); [exact (proj2 (He _ Hi) Ho)|apply Hv; exists e'; auto].
     + exists p. cbn. auto.
 Qed.
 
@@ -326,7 +326,7 @@ Proof.
   - exists (EMate (kc s) a b r1 r2). split; [now left|cbn; auto].
   - (* distinct results *)
     destruct (ma_r1 ans) as [| |c1] eqn:R1; destruct (ma_r2 ans) as [| |c2] eqn:R2; cbn in *;
-      inversion E1; inversion E2; subst; try tauto; intros _; try lia; try congruence.
+      inversion E1; inversion E2; subst; intro Hd; try contradiction; try lia; try congruence.
 Qed.
 
 Lemma step_mut (s s' : st) a r M :
@@ -399,6 +399,125 @@ Proof.
     eapply ginv_perm; [|exact Hg2]. symmetry. apply (perm_move c cs' L).
 Qed.
 
+(* ------------------------------------------------------------------ varOr *)
+Lemma var_or_step_inv cxpb mutpb (s s' : st) res L :
+  ginv (hp s) (lg s) L -> var_or_step ltb add mate_o mut_o cxpb mutpb pop s = (s', res) ->
+  shape (hp s') /\ forall o, res = inr o -> ginv (hp s') (lg s') (o :: L).
+Proof.
+  intros Hg. unfold var_or_step.
+  assert (Hfail : forall (s1 : st) e, hp s1 = hp s ->
+            (s1, @inl exn nat e) = (s', res) ->
+            shape (hp s') /\ forall o, res = inr o -> ginv (hp s') (lg s') (o :: L)).
+  { intros s1 e Eh E; inversion E; subst. rewrite Eh. split; [apply (gi_shape _ _ _ Hg)|].
+    intros o E'; discriminate. }
+  destruct (next_random s) as [[u s1]|] eqn:En; [|apply Hfail; reflexivity].
+  destruct (next_random_spec _ _ _ En) as (Eh & El & _).
+  destruct (ltb u cxpb).
+  - destruct (Nat.ltb (length pop) 2); [apply Hfail; exact Eh|].
+    destruct (dr s1) as [|[x|n i j|n i] rest]; try (apply Hfail; exact Eh).
+    destruct (Nat.eqb n (length pop)); [|apply Hfail; exact Eh].
+    destruct (nth_error pop i) as [p1|] eqn:E1; [|apply Hfail; exact Eh].
+    destruct (nth_error pop j) as [p2|] eqn:E2; [|apply Hfail; exact Eh].
+    set (s2 := mkst (hp s1) rest (kc s1) (lg s1)).
+    destruct (do_clone s2 p1) as [s3 c1] eqn:Ec1.
+    destruct (do_clone s3 p2) as [s4 c2] eqn:Ec2.
+    destruct (do_mate mate_o s4 c1 c2) as [s5 [r1 r2]] eqn:Em.
+    intro E; inversion E; subst; clear E.
+    assert (Hg2 : ginv (hp s2) (lg s2) L) by (unfold s2; cbn; rewrite Eh, El; exact Hg).
+    pose proof (step_clone _ _ _ _ _ Hg2 (nth_error_In _ _ E1) Ec1) as Hg3.
+    pose proof (step_clone _ _ _ _ _ Hg3 (nth_error_In _ _ E2) Ec2) as Hg4.
+    assert (Hg4' : ginv (hp s4) (lg s4) (c1 :: c2 :: L)) by (eapply ginv_perm; [apply perm_swap|exact Hg4]).
+    destruct (step_mate _ _ _ _ _ _ _ Hg4' Em) as (Hg5 & Hr1 & _ & Hn1 & _).
+    pose proof (step_del_add _ _ _ Hg5 Hr1 Hn1) as Hg6.
+    split; [apply (gi_shape _ _ _ Hg6)|]. intros o E'; inversion E'; subst. exact Hg6.
+  - destruct (Nat.eqb (length pop) 0); [apply Hfail; exact Eh|].
+    destruct (dr s1) as [|[x|n i j|n i] rest]; try (apply Hfail; exact Eh).
+    destruct (Nat.eqb n (length pop)); [|apply Hfail; exact Eh].
+    destruct (nth_error pop i) as [p|] eqn:E1; [|apply Hfail; exact Eh].
+    set (s2 := mkst (hp s1) rest (kc s1) (lg s1)).
+    destruct (do_clone s2 p) as [s3 c] eqn:Ec.
+    assert (Hg2 : ginv (hp s2) (lg s2) L) by (unfold s2; cbn; rewrite Eh, El; exact Hg).
+    pose proof (step_clone _ _ _ _ _ Hg2 (nth_error_In _ _ E1) Ec) as Hg3.
+    destruct (ltb u (add cxpb mutpb)).
+    + destruct (do_mut mut_o s3 c) as [s4 r] eqn:Em.
+      intro E; inversion E; subst; clear E.
+      destruct (step_mut _ _ _ _ _ Hg3 Em) as (Hg4 & Hr & Hn & _).
+      pose proof (step_del_add _ _ _ Hg4 Hr Hn) as Hg5.
+      split; [apply (gi_shape _ _ _ Hg5)|]. intros o E'; inversion E'; subst. exact Hg5.
+    + intro E; inversion E; subst; clear E.
+      split; [apply (gi_shape _ _ _ Hg3)|]. intros o E'; inversion E'; subst. exact Hg3.
+Qed.
+
+Lemma var_or_loop_inv cxpb mutpb : forall n (s s' : st) res L,
+  ginv (hp s) (lg s) L -> var_or_loop ltb add mate_o mut_o cxpb mutpb pop n s = (s', res) ->
+  shape (hp s') /\
+  forall os, res = inr os -> ginv (hp s') (lg s') (os ++ L) /\ length os = n.
+Proof.
+  induction n as [|n IH]; intros s s' res L Hg; cbn [var_or_loop].
+  - intro E; inversion E; subst. split; [apply (gi_shape _ _ _ Hg)|].
+    intros os E'; inversion E'; subst. auto.
+  - destruct (var_or_step ltb add mate_o mut_o cxpb mutpb pop s) as [s1 [e|o]] eqn:Es.
+    + intro E; inversion E; subst. destruct (var_or_step_inv _ _ _ _ _ _ Hg Es) as [Hsh _].
+      split; auto. intros os E'; discriminate.
+    + destruct (var_or_step_inv _ _ _ _ _ _ Hg Es) as [_ Ho]. specialize (Ho o eq_refl).
+      destruct (var_or_loop ltb add mate_o mut_o cxpb mutpb pop n s1) as [s2 [e|os']] eqn:El;
+        intro E; inversion E; subst; clear E;
+        destruct (IH _ _ _ _ Ho El) as [Hsh Hres]; split; auto; intros os E'; inversion E'; subst.
+      destruct (Hres os' eq_refl) as [Hg2 Hlen]. split; [|cbn; lia].
+      eapply ginv_perm; [|exact Hg2]. symmetry. apply (perm_move o os' L).
+Qed.
+
+Lemma var_or_inv lambda_ cxpb mutpb d s' res :
+  var_or ltb leb add one mate_o mut_o lambda_ cxpb mutpb (start h0 d) pop = (s', res) ->
+  shape (hp s') /\
+  forall off, res = inr off -> ginv (hp s') (lg s') off /\ length off = Z.to_nat lambda_.
+Proof.
+  unfold var_or. destruct (leb (add cxpb mutpb) one).
+  - intro E. destruct (var_or_loop_inv _ _ _ (start h0 d) _ _ [] ginv_start E) as [Hsh Hres].
+    split; auto. intros off E'. destruct (Hres off E') as [Hg Hl]. rewrite app_nil_r in Hg. auto.
+  - intro E; inversion E; subst. split; [apply shape_refl|]. intros off E'; discriminate.
+Qed.
+
+(* ------------------------------------------------------------------ what the invariant gives *)
+Lemma shape_untouched (h : heap) : shape h -> untouched h0 pop h.
+Proof.
+  intros Hs. split; [apply (sh_old_ind _ Hs)|]. split; [apply (sh_old_fit _ Hs)|].
+  intros u Hu. assert (Hlt : u < ni h0).
+  { pose proof popok as Hp. unfold pop_ok in Hp. rewrite Forall_forall in Hp. auto. }
+  unfold content, fit_of. rewrite (sh_old_ind _ Hs u Hlt).
+  rewrite (sh_old_fit _ Hs); auto.
+Qed.
+
+Lemma ginv_independent (h : heap) l off : ginv h l off -> independent h0 h off.
+Proof.
+  intros [Hs Hl Hf Hn Hst]. rewrite Forall_forall in Hf. split; [exact Hn|]. split; [|split].
+  - intros o Ho. specialize (Hf o Ho). cbn in Hf. split; [exact Hf|]. apply (sh_new_ref _ Hs), Hf.
+  - intros o u x Ho Hu Hx Hx'. specialize (Hf o Ho). cbn in Hf.
+    pose proof (sh_new_ref _ Hs o Hf) as Hr.
+    pose proof (wf0 u Hu) as Hw. rewrite <- (sh_old_ind _ Hs u Hu) in Hw.
+    unfold reach in *. cbn in Hx, Hx'.
+    destruct Hx as [<-|[<-|[]]]; destruct Hx' as [E|[E|[]]]; inversion E; lia.
+  - intros o o' x Ho Ho' Hne Hx Hx'.
+    pose proof (Hf o Ho) as H1. pose proof (Hf o' Ho') as H2. cbn in H1, H2.
+    unfold reach in *. cbn in Hx, Hx'.
+    destruct Hx as [<-|[<-|[]]]; destruct Hx' as [E|[E|[]]]; inversion E; try congruence.
+    apply Hne. symmetry. apply (sh_new_inj _ Hs); auto.
+Qed.
+
+Lemma ginv_varied_invalid (h : heap) l off : ginv h l off -> varied_invalid h l off.
+Proof.
+  intros Hg o Ho Hv. pose proof (gi_state _ _ _ Hg) as Hst. rewrite Forall_forall in Hst.
+  destruct (Hst o Ho) as [[Hnv _]|Hn]; [contradiction|exact Hn].
+Qed.
+
+Lemma ginv_valid_parent (h : heap) l off : ginv h l off -> valid_is_parent_copy h0 pop h l off.
+Proof.
+  intros Hg o f Ho Hf. pose proof (gi_state _ _ _ Hg) as Hst. rewrite Forall_forall in Hst.
+  destruct (Hst o Ho) as [[Hnv (p & Hp & Hc & Hge & Hfi)]|Hn]; [|congruence].
+  split; auto. exists p. repeat split; auto. congruence.
+Qed.
+
+(* ------------------------------------------------------------------ varAnd, second part *)
 Hypothesis mate_distinct : forall k x y, ret_distinct (ma_r1 (mate_o k x y)) (ma_r2 (mate_o k x y)).
 
 Lemma mate_loop_inv cxpb : forall l (s s' : st) res pre,
@@ -493,3 +612,99 @@ Proof.
 Qed.
 
 End Proofs.
+
+(* ================================================================== the theorems, closed *)
+Section Theorems.
+Variables G F T : Type.
+Variable ltb : T -> T -> bool.
+Variable mate_o : nat -> G * option F -> G * option F -> mate_ans G F.
+Variable mut_o : nat -> G * option F -> mut_ans G F.
+Variable h0 : heap G F.
+Variable pop : list nat.
+Hypothesis wf0 : wf_heap h0.
+Hypothesis popok : pop_ok h0 pop.
+
+Section VarAnd.
+Hypothesis mate_distinct : forall k x y, ret_distinct (ma_r1 (mate_o k x y)) (ma_r2 (mate_o k x y)).
+Variables (cxpb mutpb : T) (d : list (draw T)) (s' : st G F T) (res : exn + list nat).
+Hypothesis Hrun : var_and ltb mate_o mut_o cxpb mutpb (start h0 d) pop = (s', res).
+
+Let INV := var_and_inv G F T ltb mate_o mut_o h0 pop wf0 popok mate_distinct cxpb mutpb d s' res Hrun.
+
+Lemma and_parents_untouched : untouched h0 pop (hp s').
+Proof. apply (shape_untouched G F h0 pop wf0 popok), INV. Qed.
+
+Lemma and_offspring_count : forall off, res = inr off -> length off = length pop.
+Proof. intros off E. apply (proj2 INV off E). Qed.
+
+Lemma and_offspring_independent : forall off, res = inr off -> independent h0 (hp s') off.
+Proof. intros off E. apply (ginv_independent G F h0 pop wf0 _ _ _ (proj1 (proj2 INV off E))). Qed.
+
+Lemma and_varied_invalid : forall off, res = inr off -> varied_invalid (hp s') (lg s') off.
+Proof. intros off E. apply (ginv_varied_invalid G F h0 pop _ _ _ (proj1 (proj2 INV off E))). Qed.
+
+Lemma and_valid_is_parent_copy : forall off, res = inr off -> valid_is_parent_copy h0 pop (hp s') (lg s') off.
+Proof. intros off E. apply (ginv_valid_parent G F h0 pop _ _ _ (proj1 (proj2 INV off E))). Qed.
+End VarAnd.
+
+Variables leb : T -> T -> bool.
+Variable add : T -> T -> T.
+Variable one : T.
+
+Section VarOr.
+Variables (lambda_ : Z) (cxpb mutpb : T) (d : list (draw T)) (s' : st G F T) (res : exn + list nat).
+Hypothesis Hrun : var_or ltb leb add one mate_o mut_o lambda_ cxpb mutpb (start h0 d) pop = (s', res).
+
+Let INV := var_or_inv G F T ltb leb add one mate_o mut_o h0 pop wf0 popok lambda_ cxpb mutpb d s' res Hrun.
+
+Lemma or_parents_untouched : untouched h0 pop (hp s').
+Proof. apply (shape_untouched G F h0 pop wf0 popok), INV. Qed.
+
+Lemma or_offspring_count : forall off, res = inr off -> length off = Z.to_nat lambda_.
+Proof. intros off E. apply (proj2 INV off E). Qed.
+
+Lemma or_offspring_independent : forall off, res = inr off -> independent h0 (hp s') off.
+Proof. intros off E. apply (ginv_independent G F h0 pop wf0 _ _ _ (proj1 (proj2 INV off E))). Qed.
+
+Lemma or_varied_invalid : forall off, res = inr off -> varied_invalid (hp s') (lg s') off.
+Proof. intros off E. apply (ginv_varied_invalid G F h0 pop _ _ _ (proj1 (proj2 INV off E))). Qed.
+
+Lemma or_valid_is_parent_copy : forall off, res = inr off -> valid_is_parent_copy h0 pop (hp s') (lg s') off.
+Proof. intros off E. apply (ginv_valid_parent G F h0 pop _ _ _ (proj1 (proj2 INV off E))). Qed.
+End VarOr.
+
+(* the guards under which the real code raises instead of returning *)
+Section VarOrGuards.
+Variables (lambda_ : Z) (cxpb mutpb : T) (d : list (draw T)) (s' : st G F T) (res : exn + list nat).
+Hypothesis Hrun : var_or ltb leb add one mate_o mut_o lambda_ cxpb mutpb (start h0 d) pop = (s', res).
+
+Lemma or_assertion : leb (add cxpb mutpb) one = false -> res = inl AssertionError /\ s' = start h0 d.
+Proof. intro E. pose proof Hrun as R. unfold var_or in R. rewrite E in R. inversion R; auto. Qed.
+
+Lemma or_small_population_raises u rest :
+  leb (add cxpb mutpb) one = true -> (0 < lambda_)%Z -> d = DRandom u :: rest ->
+  ltb u cxpb = true -> length pop < 2 -> res = inl ValueError /\ hp s' = h0.
+Proof.
+  intros E Hl Ed Eu Hp. pose proof Hrun as R. unfold var_or in R. rewrite E, Ed in R.
+  destruct (Z.to_nat lambda_) as [|n] eqn:En; [lia|]. cbn [var_or_loop] in R.
+  assert (Es : var_or_step ltb add mate_o mut_o cxpb mutpb pop (start h0 (DRandom u :: rest))
+               = (mkst h0 rest 0 [], inl ValueError)).
+  { unfold var_or_step, next_random, start. cbn [dr hp kc lg]. rewrite Eu.
+    apply Nat.ltb_lt in Hp. rewrite Hp. reflexivity. }
+  rewrite Es in R. inversion R; auto.
+Qed.
+
+Lemma or_empty_population_raises u rest :
+  leb (add cxpb mutpb) one = true -> (0 < lambda_)%Z -> d = DRandom u :: rest ->
+  ltb u cxpb = false -> pop = [] -> res = inl IndexError /\ hp s' = h0.
+Proof.
+  intros E Hl Ed Eu Hp. pose proof Hrun as R. unfold var_or in R. rewrite E, Ed, Hp in R.
+  destruct (Z.to_nat lambda_) as [|n] eqn:En; [lia|]. cbn [var_or_loop] in R.
+  assert (Es : var_or_step ltb add mate_o mut_o cxpb mutpb [] (start h0 (DRandom u :: rest))
+               = (mkst h0 rest 0 [], inl IndexError)).
+  { unfold var_or_step, next_random, start. cbn [dr hp kc lg]. rewrite Eu. reflexivity. }
+  rewrite Es in R. inversion R; auto.
+Qed.
+End VarOrGuards.
+
+End Theorems.
